@@ -39,6 +39,10 @@ type c05Params struct {
 	// DrainAt > 0: the peer reads nothing until that virtual time and everything
 	// afterwards (instead of draining whenever the window is full).
 	DrainAt time.Duration
+	// Inbound > 0: a reader task reads one message of that many bytes whose frame
+	// header arrives in two transport deliveries, cut inside its extended length
+	// (or inside the mask key), while the writers write.
+	Inbound int
 	// GiveUp: once the first bytes are on the wire, a Ping whose context is
 	// cancelled at 500 ms waits for the frame lock (and gives up).
 	GiveUp bool
@@ -57,6 +61,9 @@ type c05State struct {
 	msgs     []*wres
 	pingErr  error
 	pingDone bool
+	inGot    []byte
+	inErr    error
+	inDone   bool
 	closeErr error
 	closed   bool
 }
@@ -136,6 +143,21 @@ func c05Setup(prm c05Params) func(c *fw.Ctx, name string) explore.Setup {
 								return
 							}
 						}
+					})
+				}
+				if prm.Inbound > 0 {
+					conn.SetReadLimit(-1)
+					fr := peerData(prm.K, frame.OpBinary, true, fill(0x1B, prm.Inbound))
+					w.GoHarness("inbound-reader", true, func() {
+						_, b, err := conn.Read(bg)
+						st.inGot, st.inErr, st.inDone = b, err, true
+					})
+					w.GoHarness("inbound-peer", false, func() {
+						st.p.Send(fr[:3]) // first two header bytes and one byte of the extended length
+						st.p.WaitDrained()
+						// the rest arrives once a frame of the connection is on the wire
+						st.p.WaitOut("some-output", func(out []byte) bool { return len(out) > 0 })
+						st.p.Send(fr[3:])
 					})
 				}
 				if prm.GiveUp {
@@ -333,6 +355,12 @@ func c05Oracle(c *fw.Ctx, w *vs.World, name string, prm c05Params, st *c05State)
 		}
 		lastIdx[match.task] = match.idx
 		out += fmt.Sprintf("m%d.%d ", match.task, match.idx)
+	}
+	if prm.Inbound > 0 && st.inDone {
+		if st.inErr != nil || len(st.inGot) != prm.Inbound || string(st.inGot) != string(fill(0x1B, prm.Inbound)) {
+			violate(c, w, name, pp+"/inbound-message-differs/"+prm.Name+"/"+role, fmt.Sprintf("a %d-byte message whose header arrived in two pieces while another goroutine was writing was read as %d bytes (%x…), err=%v", prm.Inbound, len(st.inGot), head(st.inGot), st.inErr))
+			return
+		}
 	}
 	// a write that returned nil is on the wire completely
 	for _, wm := range st.msgs {
@@ -532,6 +560,8 @@ func c05Scenarios(tier string) []scenario {
 		add(c05Params{Name: "W2", K: k, Writers: [][]wop{{{Chunks: []int{10}}}, {{Text: true, Chunks: []int{big}}}}}, P(2), P(-1))
 		// WB: as W2 but the transport accepts 1500 bytes at a time and blocks until the peer drains
 		add(c05Params{Name: "WB", K: k, Window: 1500, Writers: [][]wop{{{Chunks: []int{10}}}, {{Text: true, Chunks: []int{big}}}}}, P(1), P(2))
+		// WI: a writer of 300 bytes while an inbound 300-byte message's header arrives in two pieces
+		add(c05Params{Name: "WI", K: k, Inbound: 300, Writers: [][]wop{{{Chunks: []int{300}}}}}, P(1), P(2))
 		// WS: Write against a streaming Writer with two chunks
 		// the first writer's frame is stuck half way in the transport until 1 s; a Ping gives
 		// up waiting for the frame lock at 500 ms; the second writer's frame must still wait
@@ -553,7 +583,8 @@ func c05Scenarios(tier string) []scenario {
 func c05RaceScenarios(tier string) []scenario {
 	var out []scenario
 	for _, sc := range c05Scenarios(tier) {
-		quickSet := strings.HasPrefix(sc.Name, "W2/") || strings.HasPrefix(sc.Name, "WC-CloseNow/") || strings.HasPrefix(sc.Name, "WC-Close/") || strings.HasPrefix(sc.Name, "WP/")
+		quickSet := strings.HasPrefix(sc.Name, "W2/") || strings.HasPrefix(sc.Name, "WC-CloseNow/") || strings.HasPrefix(sc.Name, "WC-Close/") || strings.HasPrefix(sc.Name, "WP/") ||
+			strings.HasPrefix(sc.Name, "WI/") || sc.Name == "RC-CloseNow/server+flate" || sc.Name == "RC-CloseNow/client" || sc.Name == "RC-cancel/server+flate+cnct+snct"
 		if tier != "thorough" && !quickSet {
 			continue
 		}
@@ -562,6 +593,7 @@ func c05RaceScenarios(tier string) []scenario {
 		} else {
 			sc.Cfg.P = 1
 		}
+		sc.Cfg.E = 0
 		out = append(out, raceWrap("C05", sc))
 	}
 	// harness bodies of other properties that exercise further concurrent API
@@ -646,7 +678,29 @@ func c01Scenarios(tier string) []scenario {
 	return scs
 }
 
+// c03Scenarios: an inbound frame whose header arrives in two pieces while other
+// goroutines write (what the endpoint reads equals what the peer sent,
+// whatever else the connection is doing).
+func c03Scenarios(tier string) []scenario {
+	var scs []scenario
+	p := 1
+	if tier == "thorough" {
+		p = 2
+	}
+	for _, k := range []connCfg{{Client: true}, {Client: false}, {Client: false, Flate: true, Thr: 1}} {
+		for _, n := range []int{300, 70000} {
+			prm := c05Params{Prop: "C03", Name: fmt.Sprintf("WI-%d", n), K: k, Inbound: n, Writers: [][]wop{{{Chunks: []int{300}}}, {{Text: true, Chunks: []int{5}}}}}
+			scs = append(scs, scenario{Name: prm.Name + "/" + k.String(), Cfg: explore.Config{P: p, Horizon: 60e9}, Setup: c05Setup(prm)})
+		}
+	}
+	return scs
+}
+
 func init() {
+	fw.Register(fw.Part{Prop: "C03", Name: "s.conc",
+		Units:  func(tier string) []fw.Unit { return scenarioUnits(c03Scenarios(tier)) },
+		Replay: replayFn(c03Scenarios),
+	})
 	fw.Register(fw.Part{Prop: "C01", Name: "s.conc",
 		Units:  func(tier string) []fw.Unit { return scenarioUnits(c01Scenarios(tier)) },
 		Replay: replayFn(c01Scenarios),
